@@ -139,29 +139,80 @@ Proof. rewrite <- tp_go_mapM. reflexivity. Qed.
 Lemma forallb_Forall {A} (f : A -> bool) l : forallb f l = true <-> Forall (fun x => f x = true) l.
 Proof. rewrite forallb_forall, Forall_forall. tauto. Qed.
 
-Lemma tp_tokens_ok alloc : forall t, no256 t = true -> exists toks, tp_tokens alloc t = Ok toks.
+(** [tokenizable] implies [no256] (the invariant the earlier statements mention) *)
+Lemma tokenizable_no256 : forall t, tokenizable t = true -> no256 t = true.
+Proof.
+  induction t as [p|toks ps IH|o IH|n o IH|es IH|p|i f c IH|o st b IHo IHst] using tpath_ind';
+    cbn [tokenizable no256]; intros H; try reflexivity; try exact H; auto.
+  - apply forallb_Forall in H. apply forallb_Forall. rewrite Forall_forall in *. auto.
+  - apply forallb_Forall in H. apply forallb_Forall. rewrite Forall_forall in *. auto.
+  - apply andb_prop in H as [H _]. auto.
+  - apply andb_prop in H as [H1 H2]. rewrite (IHo H1), (IHst H2). reflexivity.
+Qed.
+
+Lemma tp_tokens_TCompact_eq alloc i f c :
+  tp_tokens alloc (TCompact i f c) =
+  let* t := tp_tokens alloc i in
+  if f && tuple_or_array i then Panic "compact field: inner type is not a type path"
+  else if f then Ok t else Ok (c ++ ["<"] ++ t ++ [">"]).
+Proof.
+  cbn [tp_tokens]. destruct (tp_tokens alloc i); cbn [bind]; [|reflexivity|reflexivity].
+  destruct f; [|reflexivity]. destruct i; reflexivity.
+Qed.
+
+Lemma tp_tokens_ok alloc : forall t, tokenizable t = true -> exists toks, tp_tokens alloc t = Ok toks.
 Proof.
   induction t as [p|toks ps IH|o IH|n o IH|es IH|p|i f c IH|o st b IHo IHst] using tpath_ind';
     intros Hn.
   - eexists; reflexivity.
-  - rewrite tp_tokens_TPath. cbn [no256] in Hn. apply forallb_Forall in Hn.
+  - rewrite tp_tokens_TPath. cbn [tokenizable] in Hn. apply forallb_Forall in Hn.
     destruct (mapM_total (tp_tokens alloc) (fun _ => True) ps) as (ys & Hys & _).
     { intros x Hx. rewrite Forall_forall in IH, Hn. destruct (IH x Hx (Hn x Hx)) as (y & Hy). eauto. }
     rewrite Hys. cbn [bind]. destruct ys; eexists; reflexivity.
-  - cbn [no256] in Hn. destruct (IH Hn) as (y & Hy). cbn [tp_tokens]. rewrite Hy. cbn [bind].
+  - cbn [tokenizable] in Hn. destruct (IH Hn) as (y & Hy). cbn [tp_tokens]. rewrite Hy. cbn [bind].
     eexists; reflexivity.
-  - cbn [no256] in Hn. destruct (IH Hn) as (y & Hy). cbn [tp_tokens]. rewrite Hy. cbn [bind].
+  - cbn [tokenizable] in Hn. destruct (IH Hn) as (y & Hy). cbn [tp_tokens]. rewrite Hy. cbn [bind].
     eexists; reflexivity.
-  - rewrite tp_tokens_TTuple. cbn [no256] in Hn. apply forallb_Forall in Hn.
+  - rewrite tp_tokens_TTuple. cbn [tokenizable] in Hn. apply forallb_Forall in Hn.
     destruct (mapM_total (tp_tokens alloc) (fun _ => True) es) as (ys & Hys & _).
     { intros x Hx. rewrite Forall_forall in IH, Hn. destruct (IH x Hx (Hn x Hx)) as (y & Hy). eauto. }
     rewrite Hys. cbn [bind]. eexists; reflexivity.
-  - cbn [no256] in Hn. destruct p; cbn in Hn; try discriminate; eexists; reflexivity.
-  - cbn [no256] in Hn. destruct (IH Hn) as (y & Hy). cbn [tp_tokens]. rewrite Hy. cbn [bind].
+  - cbn [tokenizable] in Hn. destruct p; cbn in Hn; try discriminate; eexists; reflexivity.
+  - cbn [tokenizable] in Hn. apply andb_prop in Hn as [Hi Hf]. apply negb_true_iff in Hf.
+    destruct (IH Hi) as (y & Hy). rewrite tp_tokens_TCompact_eq, Hy, Hf. cbn [bind].
     destruct f; eexists; reflexivity.
-  - cbn [no256] in Hn. apply andb_prop in Hn as [Ho Hst].
+  - cbn [tokenizable] in Hn. apply andb_prop in Hn as [Ho Hst].
     destruct (IHo Ho) as (y & Hy). destruct (IHst Hst) as (z & Hz).
     cbn [tp_tokens]. rewrite Hy. cbn [bind]. rewrite Hz. cbn [bind]. eexists; reflexivity.
+Qed.
+
+(** ... and conversely: [tokenizable] is exactly the class on which [tp_tokens] is [Ok] *)
+Lemma mapM_ok_all {A B} (f : A -> result B) l ys :
+  mapM f l = Ok ys -> forall x, In x l -> exists y, f x = Ok y.
+Proof.
+  revert ys; induction l as [|a l IH]; cbn [mapM]; intros ys H x Hx; [destruct Hx|].
+  apply bind_ok in H as (y0 & Hy0 & H). apply bind_ok in H as (ys' & Hys & _).
+  destruct Hx as [<-|Hx]; [eauto|]. eapply IH; eauto.
+Qed.
+
+Lemma tp_tokens_ok_inv alloc : forall t toks, tp_tokens alloc t = Ok toks -> tokenizable t = true.
+Proof.
+  induction t as [p|ptoks ps IH|o IH|n o IH|es IH|p|i f c IH|o st b IHo IHst] using tpath_ind';
+    intros toks H; cbn [tokenizable].
+  - reflexivity.
+  - rewrite tp_tokens_TPath in H. apply bind_ok in H as (ys & Hys & _).
+    apply forallb_Forall. rewrite Forall_forall in *. intros x Hx.
+    destruct (mapM_ok_all _ _ _ Hys x Hx) as (y & Hy). eapply IH; eauto.
+  - cbn [tp_tokens] in H. apply bind_ok in H as (y & Hy & _). eapply IH; eauto.
+  - cbn [tp_tokens] in H. apply bind_ok in H as (y & Hy & _). eapply IH; eauto.
+  - rewrite tp_tokens_TTuple in H. apply bind_ok in H as (ys & Hys & _).
+    apply forallb_Forall. rewrite Forall_forall in *. intros x Hx.
+    destruct (mapM_ok_all _ _ _ Hys x Hx) as (y & Hy). eapply IH; eauto.
+  - cbn [tp_tokens] in H. destruct p; cbn in H; try discriminate; reflexivity.
+  - rewrite tp_tokens_TCompact_eq in H. apply bind_ok in H as (y & Hy & H).
+    rewrite (IH _ Hy). destruct (f && tuple_or_array i); [discriminate|reflexivity].
+  - cbn [tp_tokens] in H. apply bind_ok in H as (y & Hy & H). apply bind_ok in H as (z & Hz & _).
+    rewrite (IHo _ Hy), (IHst _ Hz). reflexivity.
 Qed.
 
 (** ** the ["Cow"] pattern as a boolean test *)
@@ -287,25 +338,25 @@ Proof.
     try discriminate; destruct (t_path t) as [|a [|b l]]; exact H.
 Qed.
 
-(** ** substitution is total on paths without 256-bit primitives *)
+(** ** substitution is total on paths that can be printed *)
 Section Maybe.
   Variable s : settings.
 
   Lemma for_path_total path params x :
-    Forall (fun p => no256 p = true) params ->
+    Forall (fun p => tokenizable p = true) params ->
     for_path_with_params s path params = Some x ->
-    exists t, x = Ok t /\ no256 t = true.
+    exists t, x = Ok t /\ tokenizable t = true.
   Proof.
     intros Hps. unfold for_path_with_params.
     destruct (subs_get (s_subs s) path) as [sub|]; [|discriminate].
     intros Hx. inversion Hx as [Hx']; clear Hx Hx'.
     destruct (su_map sub) as [|m].
-    - eexists; split; [reflexivity|]. cbn [no256]. apply forallb_Forall. exact Hps.
+    - eexists; split; [reflexivity|]. cbn [tokenizable]. apply forallb_Forall. exact Hps.
     - remember (flat_map (fun '(id, idx) => match nth_error params idx with
                                              | Some p => [(id, p)]
                                              | None => []
                                              end) m) as sel eqn:Esel.
-      assert (Hsel : forall y, In y sel -> no256 (snd y) = true).
+      assert (Hsel : forall y, In y sel -> tokenizable (snd y) = true).
       { intros y Hy. subst sel. apply in_flat_map in Hy as ([id idx] & _ & Hy).
         destruct (nth_error params idx) as [p|] eqn:En; [|destruct Hy].
         destruct Hy as [<-|[]]. cbn [snd]. apply nth_error_In in En.
@@ -320,15 +371,29 @@ Section Maybe.
   Qed.
 
   Lemma maybe_subst_total path params :
-    path_cond path = true -> Forall (fun p => no256 p = true) params ->
-    exists t, type_path_maybe_with_substitutes s path params = Ok t /\ no256 t = true.
+    path_cond path = true -> Forall (fun p => tokenizable p = true) params ->
+    exists t, type_path_maybe_with_substitutes s path params = Ok t /\ tokenizable t = true.
   Proof.
     intros Hp Hps. unfold type_path_maybe_with_substitutes.
     destruct (for_path_with_params s path params) as [x|] eqn:E.
     - exact (for_path_total _ _ _ Hps E).
     - destruct (from_type_def_path_total path (s_root s) (alloc_tokens (s_alloc s)) Hp) as (toks & Ht).
-      rewrite Ht. cbn [bind]. eexists; split; [reflexivity|]. cbn [no256].
+      rewrite Ht. cbn [bind]. eexists; split; [reflexivity|]. cbn [tokenizable].
       apply forallb_Forall. exact Hps.
+  Qed.
+
+  (** a (substituted) definition path is a [TPath], never a tuple / an array *)
+  Lemma maybe_subst_shape path params t :
+    type_path_maybe_with_substitutes s path params = Ok t -> tuple_or_array t = false.
+  Proof.
+    unfold type_path_maybe_with_substitutes, for_path_with_params.
+    destruct (subs_get (s_subs s) path) as [sub|].
+    - destruct (su_map sub) as [|m].
+      + intros H; inversion H; reflexivity.
+      + destruct (flat_map _ m) as [|y0 sel'].
+        * intros H; inversion H; reflexivity.
+        * intros H. apply bind_ok in H as (repl & _ & H). inversion H; reflexivity.
+    - intros H. apply bind_ok in H as (p & _ & H). inversion H; reflexivity.
   Qed.
 End Maybe.
 
@@ -361,11 +426,59 @@ Section Total.
     - exists t0, id. split; [reflexivity|]. split; [assumption|]. apply Nat.le_refl.
   Qed.
 
-  Lemma resolve_rec_total : forall fuel id is_field parents orig,
-    in_reg r id -> rank id < fuel ->
-    exists t, resolve_rec r s fuel id is_field parents orig = Ok t /\ no256 t = true.
+  (** a resolution result that is a tuple / an array comes from a Tuple / Array entry (after
+      the one-level [Cow] look-through): parents give [TParam], definitions give [TPath] *)
+  Lemma cow_target_eq t0 :
+    cow_target r t0 =
+    if is_cow (path_ident (t_path t0)) then
+      match t_params t0 with
+      | [] => None
+      | p0 :: _ =>
+          match tp_ty p0 with
+          | None => None
+          | Some inner => resolve r inner
+          end
+      end
+    else Some t0.
+  Proof. unfold cow_target. apply cow_match. Qed.
+
+  Lemma cow_step_target t0 t : cow_step r t0 = Ok t -> cow_target r t0 = Some t.
   Proof.
-    destruct Hres as (Hcl & (Hrk & _) & Hent & Hcomp & Hbits).
+    rewrite cow_step_eq, cow_target_eq.
+    destruct (is_cow (path_ident (t_path t0))); [|intros H; inversion H; reflexivity].
+    destruct (t_params t0) as [|p0 ps]; [discriminate|].
+    destruct (tp_ty p0) as [inner|]; [|discriminate].
+    unfold resolve_type. destruct (resolve r inner); [|discriminate]. intros H; inversion H; reflexivity.
+  Qed.
+
+  Lemma resolve_rec_shape fuel id is_field parents orig x :
+    resolve_rec r s fuel id is_field parents orig = Ok x -> tuple_or_array x = true ->
+    exists t0 t, resolve r id = Some t0 /\ cow_target r t0 = Some t /\
+                 tuple_or_array_def (t_def t) = true.
+  Proof.
+    destruct fuel as [|fuel]; [discriminate|]. rewrite resolve_rec_S.
+    destruct (find_parent parents id orig) as [p|].
+    { intros H; inversion H; subst. discriminate. }
+    intros H Hx. apply bind_ok in H as (t0 & Ht0 & H). apply bind_ok in H as (t & Ht & H).
+    apply bind_ok in H as (params & _ & H).
+    unfold resolve_type in Ht0. destruct (resolve r id) as [t0'|] eqn:Er; [|discriminate].
+    inversion Ht0; subst t0'. exists t0, t. split; [reflexivity|]. split; [apply cow_step_target; exact Ht|].
+    unfold resolve_def in H. destruct (t_def t) as [fs|vs|e|len e|es|p|e|store order]; cbn [tuple_or_array_def];
+      try reflexivity.
+    - rewrite (maybe_subst_shape _ _ _ _ H) in Hx. discriminate.
+    - rewrite (maybe_subst_shape _ _ _ _ H) in Hx. discriminate.
+    - apply bind_ok in H as (i & _ & H). inversion H; subst. discriminate.
+    - inversion H; subst. discriminate.
+    - apply bind_ok in H as (i & _ & H). destruct (s_compact s); [|discriminate]. inversion H; subst. discriminate.
+    - destruct (s_bits s); [|discriminate]. apply bind_ok in H as (o & _ & H).
+      apply bind_ok in H as (st & _ & H). inversion H; subst. discriminate.
+  Qed.
+
+  Lemma resolve_rec_tokenizable : forall fuel id is_field parents orig,
+    in_reg r id -> rank id < fuel ->
+    exists t, resolve_rec r s fuel id is_field parents orig = Ok t /\ tokenizable t = true.
+  Proof.
+    destruct Hres as (Hcl & (Hrk & _) & Hent & (Hcomp & Hbits) & Hci).
     induction fuel as [|fuel IH]; intros id is_field parents orig Hin Hlt; [lia|].
     rewrite resolve_rec_S.
     destruct (find_parent parents id orig) as [p|]; [exists (TParam p); split; reflexivity|].
@@ -374,12 +487,12 @@ Section Total.
     destruct (cow_step_total id t0 Ht0) as (t & id' & Hcs & Ht & Hle).
     rewrite Hcs. cbn [bind].
     assert (Hch : forall c, In c (nonfield_ids t) ->
-              exists x, resolve_rec r s fuel c false parents None = Ok x /\ no256 x = true).
+              exists x, resolve_rec r s fuel c false parents None = Ok x /\ tokenizable x = true).
     { intros c Hc. apply IH.
       - eapply Hcl; [exact Ht|]. apply nonfield_ids_incl; exact Hc.
       - pose proof (Hrk _ _ _ Ht Hc) as Hr1. lia. }
     destruct (mapM_total (fun i => resolve_rec r s fuel i false parents None)
-                         (fun x => no256 x = true) (param_ids t)) as (params & Hps & Pps).
+                         (fun x => tokenizable x = true) (param_ids t)) as (params & Hps & Pps).
     { intros c Hc. apply Hch. unfold nonfield_ids. apply in_or_app; left; exact Hc. }
     rewrite Hps. cbn [bind].
     pose proof (Hent _ _ Ht) as He. unfold resolvable_entryb in He.
@@ -388,7 +501,7 @@ Section Total.
                                  | TDComposite _ | TDVariant _ => []
                                  | d => def_ids d
                                  end) ->
-              exists x, resolve_rec r s fuel c false parents None = Ok x /\ no256 x = true).
+              exists x, resolve_rec r s fuel c false parents None = Ok x /\ tokenizable x = true).
     { intros c Hc. apply Hch. unfold nonfield_ids. apply in_or_app; right; exact Hc. }
     unfold resolve_def. unfold no256_defb in H256.
     destruct (t_def t) as [fs|vs|e|len e|es|p|e|store order] eqn:Ed.
@@ -399,18 +512,33 @@ Section Total.
     - destruct (Hd e) as (x & Hx & Px); [left; reflexivity|]. rewrite Hx. cbn [bind].
       eexists; split; [reflexivity|exact Px].
     - destruct (mapM_total (fun i => resolve_rec r s fuel i false parents None)
-                           (fun x => no256 x = true) es) as (l & Hl & Pl).
+                           (fun x => tokenizable x = true) es) as (l & Hl & Pl).
       { intros c Hc. apply Hd. exact Hc. }
-      rewrite Hl. cbn [bind]. eexists; split; [reflexivity|]. cbn [no256]. apply forallb_Forall. exact Pl.
-    - eexists; split; [reflexivity|]. cbn [no256]. exact H256.
+      rewrite Hl. cbn [bind]. eexists; split; [reflexivity|]. cbn [tokenizable]. apply forallb_Forall. exact Pl.
+    - eexists; split; [reflexivity|]. cbn [tokenizable]. exact H256.
     - destruct (Hd e) as (x & Hx & Px); [left; reflexivity|]. rewrite Hx. cbn [bind].
       pose proof (Hcomp _ _ _ Ht Ed) as Hc. destruct (s_compact s) as [c|]; [|contradiction].
-      eexists; split; [reflexivity|exact Px].
+      eexists; split; [reflexivity|]. cbn [tokenizable]. rewrite Px. cbn [andb].
+      destruct is_field; [|reflexivity]. cbn [andb].
+      destruct (tuple_or_array x) eqn:Etx; [|reflexivity]. exfalso.
+      destruct (resolve_rec_shape _ _ _ _ _ _ Hx Etx) as (u0 & u & Hu0 & Hu & Hdu).
+      pose proof (Hci _ _ Ht) as Hk. unfold compact_inner_ok_at in Hk.
+      rewrite Ed, Hu0, Hu, Hdu in Hk. discriminate.
     - pose proof (Hbits _ _ _ _ Ht Ed) as Hb. destruct (s_bits s) as [b|]; [|contradiction].
       destruct (Hd order) as (x & Hx & Px); [right; left; reflexivity|].
       destruct (Hd store) as (y & Hy & Py); [left; reflexivity|].
       rewrite Hx. cbn [bind]. rewrite Hy. cbn [bind].
-      eexists; split; [reflexivity|]. cbn [no256]. rewrite Px, Py. reflexivity.
+      eexists; split; [reflexivity|]. cbn [tokenizable]. rewrite Px, Py. reflexivity.
+  Qed.
+
+  (** the earlier form: no 256-bit primitive in the result *)
+  Lemma resolve_rec_total : forall fuel id is_field parents orig,
+    in_reg r id -> rank id < fuel ->
+    exists t, resolve_rec r s fuel id is_field parents orig = Ok t /\ no256 t = true.
+  Proof.
+    intros fuel id is_field parents orig Hin Hlt.
+    destruct (resolve_rec_tokenizable fuel id is_field parents orig Hin Hlt) as (t & Ht & Hk).
+    exists t. split; [exact Ht|apply tokenizable_no256; exact Hk].
   Qed.
 
   (** the pinned form: with the fuel the model starts from *)
@@ -421,7 +549,7 @@ Section Total.
   Proof.
     intros id Hin parents orig is_field.
     destruct Hres as (_ & (_ & Hb) & _).
-    destruct (resolve_rec_total (fuel0 r) id is_field parents orig Hin) as (t & Ht & Hn).
+    destruct (resolve_rec_tokenizable (fuel0 r) id is_field parents orig Hin) as (t & Ht & Hn).
     { unfold fuel0. pose proof (Hb _ Hin). lia. }
     exists t. split; [exact Ht|]. apply tp_tokens_ok. exact Hn.
   Qed.
@@ -687,13 +815,15 @@ Theorem wf_generable r s :
   wf_regb r = true -> supportedb r s = true -> exists rank, generable r s rank.
 Proof.
   unfold wf_regb. intros H Hs.
-  apply andb_prop in H as [H He]. apply andb_prop in H as [H Hr]. apply andb_prop in H as [Hi Hc].
+  apply andb_prop in H as [H Hk]. apply andb_prop in H as [H He].
+  apply andb_prop in H as [H Hr]. apply andb_prop in H as [Hi Hc].
   destruct (rank_ok_sound r Hr) as (rank & Hrank). exists rank.
   pose proof (forallb_entries_ok entry_wfb r He) as Hent.
   split; [exact Hi|]. split; [|split].
-  - split; [apply closed_reg_closed; exact Hc|]. split; [exact Hrank|]. split.
+  - split; [apply closed_reg_closed; exact Hc|]. split; [exact Hrank|]. split; [|split].
     + intros id t Ht. apply entry_wfb_resolvable. eapply Hent; eauto.
     + apply supportedb_settings_ok; exact Hs.
+    + apply forallb_entries_ok. exact Hk.
   - intros id t Ht. apply entry_wfb_item. eapply Hent; eauto.
   - intros id t Ht. apply entry_wfb_flat. eapply Hent; eauto.
 Qed.
